@@ -482,6 +482,8 @@ def run(m, tier):
     results.append(r7)
     from rules import shapes_rules
     results += shapes_rules.c10_rules(m)
+    from rules import guard_rules
+    results.append(guard_rules.node_identity_rule(m, "C10.R9"))
     expl = ("Decides structural clauses of C10: who assigns .parent; Base.__new__ parents the children of every node it builds before "
             "init/return (typestate over its paths) and overriding __new__ methods delegate or build confirmed leaf nodes; every init "
             "stores what it is given into items/content (what `children` returns) and later stores only rearrange a node's own items; "
